@@ -122,6 +122,8 @@ pub(crate) fn register<K>(name: K, actor: ActorCell) -> Result<(), ActorRegistry
 where
     K: Into<String>,
 {
+    #[cfg(feature = "verif")]
+    crate::verif::point("reg.entry");
     match get_actor_registry().entry(name.into()) {
         Occupied(occupied) => Err(ActorRegistryErr::AlreadyRegistered(occupied.key().clone())),
         Vacant(vacancy) => {
@@ -136,6 +138,8 @@ pub(crate) fn unregister<K>(name: K)
 where
     K: AsRef<str>,
 {
+    #[cfg(feature = "verif")]
+    crate::verif::point("reg.remove");
     if let Some(reg) = ACTOR_REGISTRY.get() {
         let _ = reg.remove(name.as_ref());
     }
